@@ -312,7 +312,7 @@ def consumers_ok(rows):
 # --------------------------------------------------------------------------------------------------
 # tie (b): the real lang phase, in-process, in worker processes
 # --------------------------------------------------------------------------------------------------
-CAP = {"units": [], "flat": [], "save_fail": []}
+CAP = {"units": [], "flat": [], "save_fail": [], "raised": []}
 _WRAPPED = [False]
 _SCRATCH = [None]
 
@@ -337,6 +337,15 @@ def install_wrappers():
     orig_flatten = lang_analysis.GIRProcessing.flatten
     orig_deal = lang_analysis.GIRParser.deal_with_file_unit
     orig_save = data_model.DataModel.save
+    from lian.lang import common_parser
+    orig_parse_gir = common_parser.Parser.parse_gir
+
+    def parse_gir(self, node, statements):
+        try:
+            return orig_parse_gir(self, node, statements)
+        except Exception as e:
+            CAP["raised"].append(type(e).__name__)
+            raise
 
     def flatten(self, stmts):
         rec = {"n": self.node_id}
@@ -355,7 +364,10 @@ def install_wrappers():
         k = len(CAP["flat"])
         rec = {"uid": int(unit_info.module_id), "n": int(current_node_id), "path": os.path.basename(str(file_unit)), "flat": None}
         CAP["units"].append(rec)
+        kr = len(CAP["raised"])
         res = orig_deal(self, current_node_id, unit_info, file_unit, lang_table)
+        if len(CAP["raised"]) > kr:
+            rec["raised"] = CAP["raised"][kr]
         if len(CAP["flat"]) > k:
             rec["flat"] = CAP["flat"][k]
         rec["n_out"] = int(res[0])
@@ -369,6 +381,7 @@ def install_wrappers():
         return r
 
     lang_analysis.GIRProcessing.flatten = flatten
+    common_parser.Parser.parse_gir = parse_gir
     lang_analysis.GIRParser.deal_with_file_unit = deal
     data_model.DataModel.save = save
 
@@ -419,7 +432,7 @@ def run_case(case):
     ws = os.path.join(base, "ws")
     shutil.rmtree(os.path.join(ws, "lian_workspace", "frontend"), ignore_errors=True)   # never read a stale bundle
     target = os.path.join(indir, case["files"][0][0]) if len(case["files"]) == 1 else indir
-    CAP["units"], CAP["flat"], CAP["save_fail"] = [], [], []
+    CAP["units"], CAP["flat"], CAP["save_fail"], CAP["raised"] = [], [], [], []
     res = {"cid": case["cid"], "lang": case["lang"], "status": "ok", "site": None, "exc": None, "msg": ""}
     argv = sys.argv
     sys.argv = ["lian", "lang", "-l", case["lang"], "-w", ws, "-f", "-q", target]
@@ -779,6 +792,7 @@ def tie_a(ctx, P, proofs_ok):
     ctx.cov["tie_a"] = {"corpus": n_corpus, "exhaustive": n_exh, "random": n_rand, "out_of_fragment": oof,
                         "outcomes": dict(stats), "differences": len(corr), "wf_checked": 2 * len(wf_inputs),
                         "checker_vs_oracle_disagreements": len(disagreements), "adjust_points": len(ns)}
+    ctx.cov["disagreements_checked"] = ctx.cov.get("disagreements_checked", 0) + len(keep) + 2 * len(wf_inputs)
     ctx.cov["samples"].append({"tie": "a", "n": keep[n_corpus + 5][0], "tree": keep[n_corpus + 5][1],
                                "real": real_flatten(*keep[n_corpus + 5])})
     return corr, failing, disagreements
@@ -819,7 +833,7 @@ def tie_b(ctx, P):
     tier = ctx.tier
     sizes = ({"corpus": None, "real": 10, "generated": 10, "mutants": 70, "projects": 3, "project_files": 12, "timeout": 10}
              if tier == "quick" else
-             {"corpus": None, "real": 150, "generated": 300, "mutants": 2500, "projects": 40, "project_files": 40, "timeout": 30})
+             {"corpus": None, "real": 150, "generated": 200, "mutants": 1500, "projects": 40, "project_files": 40, "timeout": 30})
     cases, cstats = build_cases(ctx, sizes)
     cdir = os.path.join(common.VERIF, "corpus", "C03")
     corpus_cases = []
@@ -842,7 +856,8 @@ def tie_b(ctx, P):
         pass
     by_cid = {c["cid"]: c for c in cases}
     cov = {"status": collections.Counter(), "by_lang": collections.defaultdict(collections.Counter),
-           "crash_sites": collections.Counter(), "units_checked": 0, "rows_checked": 0, "model_out_of_fragment": 0}
+           "crash_sites": collections.Counter(), "units_checked": 0, "rows_checked": 0, "model_out_of_fragment": 0,
+           "frontend_raised_units": 0}
     failures, wf_reqs, run_reqs = judge_results(results, P, cov)
     # ---- certified checker on the REAL rows (+ independent oracle, + real consumers)
     lean = chunked([{"m": "wfcheck", "units": units, "params": P} for _, units in wf_reqs], 300)
@@ -889,10 +904,13 @@ def tie_b(ctx, P):
     # ---- model langRun on the captured trees must reproduce the bundle
     reqs = []
     for r in run_reqs:
-        us = [[u["uid"], (u["flat"]["tree"] if u["flat"] else None)] for u in r["units"]]
+        us = [[u["uid"], ({"raised": u["raised"]} if u.get("raised") and not u["flat"] else
+                          (u["flat"]["tree"] if u["flat"] else None))] for u in r["units"]]
+        cov["frontend_raised_units"] += sum(1 for u in r["units"] if u.get("raised"))
         reqs.append({"m": "flatten", "op": "run", "start": r["units"][0]["n"], "units": us, "params": P})
     model = chunked(reqs, 300)
     corr = []
+    frag, frag_samples = collections.Counter(), []
     for r, m in zip(run_reqs, model):
         ctx.cov["evaluations"] += 1
         if m["res"] == "err:unrepresentable":
@@ -901,6 +919,13 @@ def tie_b(ctx, P):
         if m["res"] != "ok":
             corr.append({"cid": r["cid"], "what": "model stops with " + m["res"] + " where the real phase completed"})
             continue
+        for flag, u in zip(m.get("wfgir", []), r["units"]):
+            if flag is True:
+                frag["wfgir"] += 1
+            elif flag is False:
+                frag["not_wfgir"] += 1
+                if len(frag_samples) < 5:
+                    frag_samples.append(r["cid"] + ":" + u["path"])
         real = {uid: sorted(canon_unordered(w) for w in rows) for uid, rows in r["bundle"]}
         mod = {uid: sorted(canon_unordered({"op": w["op"], "id": w["id"], "p": w["p"], "a": w["a"]}) for w in rows) for uid, rows in m["units"]}
         if real != mod:
@@ -921,9 +946,14 @@ def tie_b(ctx, P):
                         "crash_sites": dict(cov["crash_sites"]), "units_checked": cov["units_checked"],
                         "rows_checked": cov["rows_checked"], "clause_failures": dict(clause_hits),
                         "model_runs_compared": len(run_reqs), "model_out_of_fragment": cov["model_out_of_fragment"],
+                        "fragment": {"real_trees_in_WfGir": frag["wfgir"], "real_trees_outside_WfGir": frag["not_wfgir"],
+                                     "outside_samples": frag_samples},
                         "model_differences": len(corr), "checker_vs_oracle_disagreements": len(disagreements),
+                        "frontend_raised_units_skipped": cov["frontend_raised_units"],
                         "corrupted_tables": dict(rejected), "consumer_failures": consumer_fail,
                         "pool_wall_s": round(time.time() - t0, 1), "workers": nproc}
+    ctx.cov["programs"] = ctx.cov.get("programs", 0) + len(results)
+    ctx.cov["disagreements_checked"] = ctx.cov.get("disagreements_checked", 0) + len(wf_reqs) + len(corrupted) + len(run_reqs)
     ok_res = next((r for r in results if r["status"] == "ok" and r.get("bundle")), None)
     if ok_res:
         ctx.cov["samples"].append({"tie": "b", "cid": ok_res["cid"], "units": [[uid, len(rows)] for uid, rows in ok_res["bundle"]],
